@@ -5,8 +5,8 @@ C11 (X11 part 3) — hertz's own part of the multipart/form-data writer, first s
 
 * `protocol.CreateMultipartHeader(param, fileName, contentType)`: `Content-Disposition: form-data; name="<param>"`, with
   `; filename="<fileName>"` iff `strings.TrimSpace(fileName)` is not empty — the two values are put between the quotes
-  VERBATIM (`fmt.Sprintf`, no escaping of `"`, `\`, CR, LF; `mime/multipart`'s own `CreateFormFile` escapes `\` and `"`
-  and since Go 1.20 replaces CR/LF) — and `Content-Type: <contentType>` iff it is not empty;
+  ESCAPED like `mime/multipart`'s own `CreateFormFile` does (`\` → `\\`, `"` → `\"`, CR → `%0D`, LF → `%0A`; `/repo`
+  865e699 — before it they were written verbatim and a name could end the quoted string or the header line) — and `Content-Type: <contentType>` iff it is not empty;
 * `AddMultipartFormField` / `WriteMultipartFormFile` (content type sniffed by `http.DetectContentType`, an input here):
   `multipart.Writer.CreatePart(header)` + the content;
 * what `mime/multipart.Writer` adds: the delimiter line `--boundary CRLF` (from the second part on preceded by CRLF), the
@@ -42,13 +42,23 @@ def sCT : Bytes := [67, 111, 110, 116, 101, 110, 116, 45, 84, 121, 112, 101, 58,
 /-- `multipart/form-data; boundary=` -/
 def sFDCT : Bytes := [109, 117, 108, 116, 105, 112, 97, 114, 116, 47, 102, 111, 114, 109, 45, 100, 97, 116, 97, 59, 32, 98, 111, 117, 110, 100, 97, 114, 121, 61]
 
+/-- `escapeQuotes` (`quoteEscaper.Replace`): `\` → `\\`, `"` → `\"`, CR → `%0D`, LF → `%0A` -/
+def escapeQ : Bytes → Bytes
+  | [] => []
+  | c :: t =>
+    (if c = 92 then [92, 92] else if c = 34 then [92, 34] else if c = 13 then [37, 48, 68]
+     else if c = 10 then [37, 48, 65] else [c]) ++ escapeQ t
+
+/-- `strings.NewReplacer("\r", " ", "\n", " ")` on the content type -/
+def cleanCT (v : Bytes) : Bytes := v.map (fun c => if c = 13 ∨ c = 10 then 32 else c)
+
 /-- the `Content-Disposition` value of `CreateMultipartHeader` -/
 def disposition (p : Part) : Bytes :=
-  sDisp ++ p.name ++ (if blank p.fileName then [34] else sFile ++ p.fileName ++ [34])
+  sDisp ++ escapeQ p.name ++ (if blank p.fileName then [34] else sFile ++ escapeQ p.fileName ++ [34])
 
 /-- the header block `CreatePart` writes for the header of `CreateMultipartHeader` (keys sorted) -/
 def partHead (p : Part) : Bytes :=
-  sCD ++ disposition p ++ crlf ++ (if p.ctype.isEmpty then [] else sCT ++ p.ctype ++ crlf) ++ crlf
+  sCD ++ disposition p ++ crlf ++ (if p.ctype.isEmpty then [] else sCT ++ cleanCT p.ctype ++ crlf) ++ crlf
 
 def partsWire (b : Bytes) : Bool → List Part → Bytes
   | _, [] => []
